@@ -26,7 +26,7 @@ CLAIMS = {
              "queue and other results identical to the batch without it) is proved for both passes. The model (both passes, heapify, reheap, faults) is compared with the real "
              "handle_operations on the exact data array after every batch; a brute-force priority-queue linearizability oracle decides violations. Defect found and repaired (fix: 60f5e0e).",
         note="Not modelled: the aggregator (pending-stack CAS, handler election) — that operations of one batch overlap in real time and batches are executed one after the other is taken from the code by reading "
-             "and exercised by the real-thread linearizability oracle only; Compare = std::less<int> in the model.",
+             "and exercised by the real-thread linearizability oracle only; Compare = std::less<int> in the model. Real threads (cpq-mt, oracle only): no element read after its push returned, exceptions reach exactly the failing callers, conservation, final priority order.",
         ref="4/C13"),
     "C08": dict(
         technique="Coq proof of an inductive invariant over all interleavings (N threads) of an access-level small-step model (spin_rw_mutex); step-level correspondence with the real lock under a deterministic atomic-access gate; real-thread exclusion / hand-off oracle for all eight mutex types",
@@ -42,7 +42,7 @@ CLAIMS = {
         text="simple_chunks is proved for every begin<end and every grain (no size bound): termination, in-order contiguous tiling, non-empty chunks, non-divisible ranges never split, "
              "chunk sizes in [ceil(g/2), g]. The model's leaves are compared exactly with the chunks the real parallel_for(simple_partitioner) hands to the body, incl. sizes > 2^32 and 2^63. "
              "Strided form parallel_for(first,last,step,f): strided_loop_indices proves that the trip count / index formula visits exactly the progression below last, each index once; tied at the ends of int / unsigned / size_t / long long. "
-             "Proportional split: Flocq binary32 model evaluated inside Coq, tied for sizes up to 2^64-1. All other partitioners / 2d / 3d / for_each / invoke are exercised by real-thread runs with the exactly-once/tiling predicate.",
+             "Proportional split: Flocq binary32 model evaluated inside Coq, tied for sizes up to 2^64-1. All other partitioners / 2d / 3d / for_each / invoke are exercised by real-thread runs with the exactly-once/tiling predicate. Range pool of auto / affinity partitioner (RvecModel, ring indices explicit): for every non-empty range and every sequence of split_to_fill / run-back / offer-front the pieces run, offered and still pooled are non-empty and tile the range (range_pool_tiles_the_range); tie range-pool: the real range_vector<blocked_range<long>,8> white box, op by op, over ring-wrapping scripts.",
         note="Partial: auto/static/affinity partitioner state machines, the float proportional split and the nd ranges are not yet modelled in Coq (oracle-only).",
         ref="4/C05"),
     "C16": dict(
